@@ -158,7 +158,7 @@ def mirror_every_kind_once():
 if __name__ == '__main__':
     c = Collector()
     c.run_parallel([
-        ('C01.mirror_every_kind', 'B', mirror_every_kind_once, 'each of the 11 transaction kinds twice in fixed order, whole-MDIB comparison and notification comparison after each'),
+        ('C01.mirror_every_kind', 'B', mirror_every_kind_once, 'each transaction kind of native/histories.py twice in fixed order, whole-MDIB comparison and notification comparison after each'),
         ('C01.mirror_single_mds', 'B', mirror_single, 'quick: 2 seeds x 24 random transactions; thorough: 6 x 80 (70041_MDIB_Final.xml)'),
         ('C01.mirror_two_mds', 'B', mirror_two_mds, 'quick: 1 seed x 16 random transactions; thorough: 4 x 60 (mdib_two_mds.xml)'),
     ])
